@@ -1,15 +1,18 @@
 from .. import flow
 from ..engines_cache import CacheEngine, S
+from ..engines_loader import LoaderSeq
 
 ENG = CacheEngine(prop="C12")
-ENGINES = [ENG]
+# the stale-while-revalidate sentence is proved on C15's loader model (Props/C12_stale.v) and tied
+# through its sequential engine; its monitor's clause for this property is "C12:stale-window"
+ENGINES = [ENG, LoaderSeq()]
 
 ASSUMPTIONS = [
     "K2 (operation-level) model with the virtual clock of hook H4 (verif_time::set_virtual/advance): time moves only by explicit advance ops; boundary instants (1 ns before, at, after a deadline) are ordinary inputs",
     "TTL/TTI arithmetic on unbounded N (u64 ns in the code; no overflow for < 2^64 ns); expires_at = 0 is the code's 'no TTL' marker and the model keeps it",
     "timer wheel: tick duration 1 s in D1 (the f64 rounding of duration/tick is exact there), wheel sizes 60/4/7; schedule/cancel/advance modelled as in task/timer.rs (one tick per advance call)",
     "TTI cleanup samples the first 10 entries in HashMap iteration order: D1 keeps <= 9 entries per shard so the order is immaterial; the theorems do not depend on the order",
-    "the stale-while-revalidate sentence (fetch_with) is proved on the loader model of C15 (Props/C12_stale.v when present); iterators/snapshots belong to C17",
+    "the stale-while-revalidate sentence (fetch_with) is proved on the loader model of C15 (Props/C12_stale.v) and tied by engine loader.seq; iterators/snapshots belong to C17",
     "switches fix_f15/fix_f16/fix_f33 of the model select the behaviour after the patches proposed in docs/C12.md; D1 runs the model with CacheOps.impl_fixes (today: none)",
 ]
 
